@@ -607,6 +607,21 @@ class PX:
             return ('cref', self.read(st, v[1]))
         return v
 
+    def deep_snap(self, st, v, depth=0):
+        """snapshot of a value with every (nested) reference to a local replaced by the local's current value"""
+        if depth > 8 or not isinstance(v, tuple) or not v:
+            return v
+        k = v[0]
+        if k == 'ref' and self.root(v[1])[0] == 'L':
+            return ('cref', self.deep_snap(st, self.read(st, v[1]), depth + 1))
+        if k == 'cref':
+            return ('cref', self.deep_snap(st, v[1], depth + 1))
+        if k in ('tuple', 'array'):
+            return (k, tuple(self.deep_snap(st, x, depth + 1) for x in v[1]))
+        if k == 'adt':
+            return ('adt', v[1], v[2], tuple(self.deep_snap(st, x, depth + 1) for x in v[3]))
+        return v
+
     def snap_args(self, st, args):
         return tuple(self.snap(st, a) for a in args)
 
